@@ -1,7 +1,7 @@
 (** C07 property theorems (nothing else lives here). *)
 From Coq Require Import List NArith Arith.
 From VLib Require Import Bytes.
-From Codec Require Import Struct Codec C07Proofs.
+From Codec Require Import Gen.MessageTables Struct Codec Toy Rfc7296Layout C05Proofs C07Proofs C07Roundtrip.
 Import ListNotations.
 
 (** For every payload length, what PayloadSK.generate hands to the cipher is the payload bytes, then p zero
@@ -25,5 +25,171 @@ Theorem C07_icv_is_mac_over_prefix : forall enc mac cr m d,
 Proof. exact encode_icv. Qed.
 Print Assumptions C07_icv_is_mac_over_prefix.
 
-(* Not reached (DESIGN section 6): C07_roundtrip, C07_accept_iff / C07_any_change_is_forgery as theorems; they
-   are covered by the correspondence (toy primitives) and by the oracle on the real AES-CBC/HMAC classes. *)
+(** Round trip of protected messages.  [encode enc mac (Some cr) m] is Message.to_bytes() of a message whose crypto
+    is [cr], [decode dec mac (Some cr) false d] is Message.parse(d, crypto=cr).  For every message whose header
+    fields fit, whose cleartext payloads are a well-formed chain without an Encrypted payload, whose payloads to
+    encrypt are a well-formed chain that encodes to octets, with a one-block IV ([wf_protected]), both chains made of
+    SA/KE/IDi/IDr/AUTH/NONCE/NOTIFY/VENDOR payloads ([simple_chain], the C05 restriction: no DELETE, TSi/TSr), and
+    for every cipher/MAC with the stated length and inversion properties: whatever to_bytes produces, parse gives
+    back [received cr m] = the same nine header fields, the same cleartext payloads (the SK payload is popped), the
+    same inner payloads; it differs from [m] exactly in iv := Some (the IV that was sent) and
+    is_authenticated := True. *)
+Theorem C07_roundtrip : forall enc dec mac cr m d,
+  (0 < c_bs cr <= 256)%nat -> (0 < c_icv cr)%nat ->
+  (forall k x, length (mac k x) = c_icv cr) ->
+  (forall k iv p, length (enc k iv p) = length p) ->
+  (forall k iv p, wf_bytes p -> (length p mod c_bs cr = 0)%nat -> dec k iv (enc k iv p) = p) ->
+  wf_protected cr m -> simple_chain (m_payloads m) -> simple_chain (m_enc_payloads m) ->
+  encode enc mac (Some cr) m = Ok d ->
+  decode dec mac (Some cr) false d =
+    Ok (mkMessage (m_spi_i m) (m_spi_r m) (m_major m) (m_minor m) (m_exchange m) (m_is_response m) (m_higher m)
+                  (m_is_initiator m) (m_id m) (m_payloads m) (m_enc_payloads m)
+                  (Some (match m_iv m with Some iv => iv | None => c_new_iv cr end)) true).
+Proof. exact roundtrip_protected. Qed.
+Print Assumptions C07_roundtrip.
+
+(** ... and to_bytes does succeed whenever the SK payload fits its 16-bit and the datagram its 32-bit length field
+    (sufficient bounds: the padding adds at most one block), so, as in C05: *)
+Theorem C07_roundtrip_exists : forall enc dec mac cr m,
+  (0 < c_bs cr <= 256)%nat -> (0 < c_icv cr)%nat ->
+  (forall k x, length (mac k x) = c_icv cr) ->
+  (forall k iv p, length (enc k iv p) = length p) ->
+  (forall k iv p, wf_bytes p -> (length p mod c_bs cr = 0)%nat -> dec k iv (enc k iv p) = p) ->
+  wf_protected cr m -> simple_chain (m_payloads m) -> simple_chain (m_enc_payloads m) ->
+  let sk_max := (c_bs cr + (length (rfc_chain (m_enc_payloads m)) + c_bs cr) + c_icv cr)%nat in
+  (4 + N.of_nat sk_max < 65536)%N ->
+  (28 + len_of (rfc_chain (m_payloads m)) + 4 + N.of_nat sk_max < 4294967296)%N ->
+  exists d, encode enc mac (Some cr) m = Ok d /\ decode dec mac (Some cr) false d = Ok (received cr m).
+Proof. exact roundtrip_protected_exists. Qed.
+Print Assumptions C07_roundtrip_exists.
+
+(** The wire layout of a protected datagram: the RFC 7296 layout (C05's independent [rfc_encode]) of the cleartext
+    message whose last payload is SK(iv ++ E(inner chain ++ p zero octets ++ octet p) ++ checksum). *)
+Theorem C07_layout : forall enc mac cr m d,
+  (forall k x, length (mac k x) = c_icv cr) -> (0 < c_icv cr)%nat -> (0 < c_bs cr <= 256)%nat ->
+  (forall k iv p, length (enc k iv p) = length p) ->
+  wf_protected cr m -> simple_chain (m_payloads m) -> simple_chain (m_enc_payloads m) ->
+  encode enc mac (Some cr) m = Ok d ->
+  exists (p : N) (tag : bytes),
+    let clr := rfc_chain (m_enc_payloads m) in
+    let pt := clr ++ repeat 0%N (N.to_nat p) ++ [p] in
+    let iv := sent_iv cr m in
+    let m1 := with_payloads m (m_payloads m ++
+                 [sk_payload (iv ++ enc (c_sk_e cr) iv pt ++ tag) (rfc_first (m_enc_payloads m))]) in
+    (p < N.of_nat (c_bs cr))%N /\ (length pt mod c_bs cr = 0)%nat /\ length tag = c_icv cr
+    /\ wf_msg m1 /\ simple_chain (m_payloads m1) /\ d = rfc_encode m1.
+Proof. exact encode_protected_layout. Qed.
+Print Assumptions C07_layout.
+
+(** Acceptance condition, for ALL byte strings d: whatever d is, if Message.parse(d, crypto=cr) returns a message
+    flagged is_authenticated then the last hash_size octets of d are integrity.compute(sk_a, all octets before them). *)
+Theorem C07_accept_only_with_valid_mac : forall dec mac cr d m',
+  decode dec mac (Some cr) false d = Ok m' -> m_authenticated m' = true ->
+  slice_from_neg d (c_icv cr) = mac (c_sk_a cr) (slice_to_neg d (c_icv cr)).
+Proof. exact accepted_has_valid_mac. Qed.
+Print Assumptions C07_accept_only_with_valid_mac.
+
+(** ... and exactly: d is accepted as authenticated iff it holds a whole header, the payload chain announced by the
+    header's Next Payload octet ends with an Encrypted payload, the checksum is valid, PayloadSK.decrypt succeeds and
+    the decrypted content parses as a payload chain. *)
+Theorem C07_accept_iff : forall dec mac cr d,
+  (exists m', decode dec mac (Some cr) false d = Ok m' /\ m_authenticated m' = true)
+  <-> ((hdr_size <= length d)%nat
+       /\ slice_from_neg d (c_icv cr) = mac (c_sk_a cr) (slice_to_neg d (c_icv cr))
+       /\ exists ps0 crit c next iv clr eps,
+            fst (parse_payloads (slice_from d hdr_size) (hdr_first d)) = Ok (ps0 ++ [mkPayload crit (B_SK c next)])
+            /\ fst (sk_decrypt dec cr c) = Ok (iv, clr)
+            /\ fst (parse_payloads clr next) = Ok eps).
+Proof. exact accept_iff. Qed.
+Print Assumptions C07_accept_iff.
+
+(** Every successful parse with crypto, exhaustively: flagged authenticated (then as above), or NOT flagged - the
+    chain announced by the header is empty or does not end with an Encrypted payload, nothing was verified, the
+    message carries that chain and no inner payloads (F17: parse RETURNS such messages; callers must test
+    is_authenticated). *)
+Theorem C07_parse_cases : forall dec mac cr d m',
+  decode dec mac (Some cr) false d = Ok m' ->
+  (hdr_size <= length d)%nat /\
+  exists ps, fst (parse_payloads (slice_from d hdr_size) (hdr_first d)) = Ok ps /\
+    ((m_authenticated m' = true
+      /\ slice_from_neg d (c_icv cr) = mac (c_sk_a cr) (slice_to_neg d (c_icv cr))
+      /\ exists crit c next iv clr,
+           ps = m_payloads m' ++ [mkPayload crit (B_SK c next)]
+           /\ fst (sk_decrypt dec cr c) = Ok (iv, clr) /\ m_iv m' = Some iv
+           /\ fst (parse_payloads clr next) = Ok (m_enc_payloads m'))
+     \/ (m_authenticated m' = false /\ last_not_sk ps
+         /\ m_payloads m' = ps /\ m_enc_payloads m' = [] /\ m_iv m' = Some (c_new_iv cr))).
+Proof. exact decode_cases. Qed.
+Print Assumptions C07_parse_cases.
+
+(** Any change is detected or is a forgery.  d was sent under cr; d' is ANY other byte string (octets changed,
+    truncated, extended); the receiver's context cr' has the same or another sk_a and the same checksum length.  If
+    parse accepts d' as authenticated, then the last octets of d' are a valid checksum under the receiver's key of the
+    octets before them, and that (message, checksum) pair is not the one the sender produced. *)
+Theorem C07_any_change_detected : forall enc dec mac cr cr' m d d' m',
+  (forall k x, length (mac k x) = c_icv cr) -> (0 < c_icv cr)%nat -> c_icv cr' = c_icv cr ->
+  encode enc mac (Some cr) m = Ok d ->
+  d' <> d ->
+  decode dec mac (Some cr') false d' = Ok m' -> m_authenticated m' = true ->
+  let n := c_icv cr in
+  slice_from_neg d n = mac (c_sk_a cr) (slice_to_neg d n)
+  /\ slice_from_neg d' n = mac (c_sk_a cr') (slice_to_neg d' n)
+  /\ (slice_to_neg d' n, slice_from_neg d' n) <> (slice_to_neg d n, slice_from_neg d n).
+Proof. exact any_change_is_forgery. Qed.
+Print Assumptions C07_any_change_detected.
+
+(** Sub-case: same octets before the checksum, same sk_a, anything else different: never accepted as authenticated. *)
+Theorem C07_same_prefix_other_tag_not_accepted : forall enc dec mac cr cr' m d d' m',
+  (forall k x, length (mac k x) = c_icv cr) -> (0 < c_icv cr)%nat -> c_icv cr' = c_icv cr ->
+  c_sk_a cr' = c_sk_a cr ->
+  encode enc mac (Some cr) m = Ok d ->
+  d' <> d -> slice_to_neg d' (c_icv cr) = slice_to_neg d (c_icv cr) ->
+  decode dec mac (Some cr') false d' = Ok m' -> m_authenticated m' = false.
+Proof. exact same_prefix_other_tag_not_accepted. Qed.
+Print Assumptions C07_same_prefix_other_tag_not_accepted.
+
+(** All outcomes for a modified protected datagram that parse does not reject: accepted as authenticated (forgery),
+    or returned NOT authenticated, without inner payloads, because the modified header announces a chain that does
+    not end with an Encrypted payload. *)
+Theorem C07_modified_datagram_cases : forall enc dec mac cr cr' m d d' m',
+  (forall k x, length (mac k x) = c_icv cr) -> (0 < c_icv cr)%nat -> c_icv cr' = c_icv cr ->
+  encode enc mac (Some cr) m = Ok d -> d' <> d ->
+  decode dec mac (Some cr') false d' = Ok m' ->
+  (m_authenticated m' = true
+   /\ slice_from_neg d' (c_icv cr) = mac (c_sk_a cr') (slice_to_neg d' (c_icv cr))
+   /\ (slice_to_neg d' (c_icv cr), slice_from_neg d' (c_icv cr)) <> (slice_to_neg d (c_icv cr), slice_from_neg d (c_icv cr)))
+  \/ (m_authenticated m' = false /\ m_enc_payloads m' = []
+      /\ fst (parse_payloads (slice_from d' hdr_size) (hdr_first d')) = Ok (m_payloads m')
+      /\ last_not_sk (m_payloads m')).
+Proof. exact modified_datagram_cases. Qed.
+Print Assumptions C07_modified_datagram_cases.
+
+(** "Every modification of a protected datagram makes parse raise" is FALSE of the codec (F17): with the toy
+    primitives, the protected INFORMATIONAL datagram without inner payloads whose header Next Payload octet is changed
+    from 46 to 43 is returned by parse, unauthenticated, with the SK body as a Vendor ID payload. *)
+Theorem C07_modified_returned_unauthenticated_refuted :
+  exists cr m d d' m',
+    encode toy_enc (toy_mac (c_icv cr)) (Some cr) m = Ok d /\ d' <> d /\ length d' = length d
+    /\ decode toy_dec (toy_mac (c_icv cr)) (Some cr) false d' = Ok m'
+    /\ m_authenticated m' = false /\ m_enc_payloads m' = [] /\ m_payloads m' <> [].
+Proof. exact modified_returned_unauthenticated_refuted. Qed.
+Print Assumptions C07_modified_returned_unauthenticated_refuted.
+
+(** Non-vacuity: the toy primitives and a concrete IKE_AUTH-like message satisfy every hypothesis of C07_roundtrip,
+    to_bytes succeeds (159 octets) and the conclusion evaluates to true. *)
+Theorem C07_hypotheses_satisfiable :
+  let cr := ex_cr in let mac := toy_mac (c_icv cr) in
+  ((0 < c_bs cr <= 256)%nat /\ (0 < c_icv cr)%nat
+   /\ (forall k x, length (mac k x) = c_icv cr)
+   /\ (forall k iv p, length (toy_enc k iv p) = length p)
+   /\ (forall k iv p, wf_bytes p -> (length p mod c_bs cr = 0)%nat -> toy_dec k iv (toy_enc k iv p) = p)
+   /\ wf_protected cr ex_m /\ simple_chain (m_payloads ex_m) /\ simple_chain (m_enc_payloads ex_m))
+  /\ encode toy_enc mac (Some cr) ex_m = Ok (ex_encode cr ex_m)
+  /\ (length (ex_encode cr ex_m) = 159)%nat
+  /\ decode toy_dec mac (Some cr) false (ex_encode cr ex_m) = Ok (received cr ex_m).
+Proof. exact roundtrip_protected_nonvacuous. Qed.
+Print Assumptions C07_hypotheses_satisfiable.
+
+(* Not reached: the round trip for inner/cleartext chains containing DELETE or TSi/TSr payloads ([simple_chain]
+   excludes exactly these, as in C05); they are covered by the correspondence (toy primitives) and by the oracle on
+   the real AES-CBC/HMAC classes. *)
